@@ -530,8 +530,12 @@ def check_packet(ctx, comp, case, cls, ver, p, expect, specs=None,
     Returns body bytes or None."""
     c = P4.ctx_for(ver)
     s = Sink()
+    import warnings
     try:
-        p.write(s)
+        with warnings.catch_warnings():
+            # (also in a process that escalates warnings to errors)
+            warnings.simplefilter('error')
+            p.write(s)
     except Exception as e:
         ctx.fail(comp, 'F1-write-raises', case, exc=e)
         return None
@@ -560,7 +564,9 @@ def check_packet(ctx, comp, case, cls, ver, p, expect, specs=None,
     buf.send(body)
     buf.reset_cursor()
     try:
-        q.read(buf)
+        with warnings.catch_warnings():
+            warnings.simplefilter('error')
+            q.read(buf)
     except Exception as e:
         ctx.fail(comp, 'F2-read-raises', case, exc=e)
         return body
